@@ -26,6 +26,7 @@ MODELLED = ["evo/tools/file_interface.py:has_utf8_bom", "evo/tools/file_interfac
             "evo/core/lie_algebra.py:sim3_scale", "evo/core/lie_algebra.py:sim3", "evo/core/transformations.py:quaternion_matrix",
             "evo/core/trajectory.py:xyz_quat_wxyz_to_se3_poses"]
 TMP = None
+NREAD = 0
 warnings.filterwarnings("ignore", category=RuntimeWarning)
 
 
@@ -220,6 +221,21 @@ def gen_cases(ctx):
         if variant == "p" and r.random() < 0.2:
             text = tf.BOM + text
         yield {"kind": "read", "fmt": fmt, "variant": variant, "text": text, "label": d, "where": where}
+    # path-reuse histories: write f (BOM); read; rewrite f (no BOM); read; ... and the reverse
+    for k in range(90 if not th else 500):
+        fmt = r.choice(["tum", "kitti", "euroc"])
+        first_bom = r.random() < 0.5
+        steps = []
+        for i in range(r.choice([2, 2, 3, 4])):
+            bom = first_bom if i % 2 == 0 else not first_bom
+            if r.random() < 0.15:
+                bom = r.random() < 0.5
+            steps.append({"text": assemble(r, fmt, gen_table(r, fmt, r.choice([1, 2, 3, 6])), comments=r.random() < 0.5), "bom": bom,
+                          "spell": r.choice(["rel", "dot", "dotdot", "abs"]), "ptype": r.choice(["str", "Path"])})
+        if r.random() < 0.6:
+            for st in steps:
+                st.update(spell=steps[0]["spell"], ptype=steps[0]["ptype"])
+        yield {"kind": "history", "fmt": fmt, "steps": steps}
     # files written by evo, read by the model and by the reference reader
     for k in range(150 if not th else 600):
         n = r.choice([1, 2, 5, 20]) if r.random() < 0.9 else r.randint(100, 400 if not th else 5000)
@@ -344,10 +360,17 @@ def call_reader(fmt, variant, text):
         if variant == "h":
             obj = f(io.StringIO(text, newline=""))
         else:
-            p = os.path.join(tmpdir(), "in.txt")
+            # a fresh name per read: single reads carry no history (path reuse is the history stream's job,
+            # whose cases replay on their own)
+            global NREAD
+            NREAD += 1
+            p = os.path.join(tmpdir(), "in_%d.txt" % NREAD)
             with open(p, "wb") as fh:
                 fh.write(text.encode("utf-8"))
-            obj = f(p)
+            try:
+                obj = f(p)
+            finally:
+                os.remove(p)
     except fi.FileInterfaceException:
         return {"status": "FIE"}
     except Exception as e:  # noqa
@@ -374,10 +397,43 @@ def extract(fmt, obj):
             "lens": [len(obj.timestamps), len(obj.positions_xyz), len(obj.orientations_quat_wxyz)]}
 
 
+def impl_history(case):
+    """one file name in a scratch cwd, rewritten and re-read several times (with / without BOM)"""
+    import pathlib
+    from evo.tools import file_interface as fi
+    fmt = case["fmt"]
+    f = {"tum": fi.read_tum_trajectory_file, "kitti": fi.read_kitti_poses_file, "euroc": fi.read_euroc_csv_trajectory}[fmt]
+    d = tempfile.mkdtemp(prefix="hist_", dir=tmpdir())
+    os.mkdir(os.path.join(d, "sub"))
+    global NREAD
+    NREAD += 1      # a name of its own per history: relative spellings of different cases must not meet in any path-keyed state
+    name = {"tum": "traj_%d.txt", "kitti": "poses_%d.txt", "euroc": "data_%d.csv"}[fmt] % NREAD
+    old = os.getcwd()
+    os.chdir(d)
+    out = []
+    try:
+        for st in case["steps"]:
+            p = {"rel": name, "dot": "./" + name, "dotdot": "sub/../" + name, "abs": os.path.join(d, name)}[st["spell"]]
+            with open(os.path.join(d, name), "wb") as fh:
+                fh.write(((tf.BOM if st["bom"] else "") + st["text"]).encode("utf-8"))
+            try:
+                obj = f(pathlib.Path(p) if st["ptype"] == "Path" else p)
+                out.append(extract(fmt, obj))
+            except fi.FileInterfaceException:
+                out.append({"status": "FIE"})
+            except Exception as e:  # noqa
+                out.append({"status": "EXC:" + type(e).__name__, "msg": str(e)[:120]})
+    finally:
+        os.chdir(old)
+    return {"steps": out}
+
+
 def run_impl(case):
     from evo.tools import file_interface as fi
     from evo.core.trajectory import PosePath3D, PoseTrajectory3D
     k = case["kind"]
+    if k == "history":
+        return impl_history(case)
     if k == "read":
         return call_reader(case["fmt"], case["variant"], case["text"])
     if k == "written":
@@ -412,6 +468,8 @@ def run_impl(case):
 # ------------------------------------------------------------------ model side
 def model_lines(case, impl):
     k = case["kind"]
+    if k == "history":
+        return [f"C07 {case['fmt']} p {tf.hexs((tf.BOM if st['bom'] else '') + st['text'])}" for st in case["steps"]]
     if k == "read":
         ls = [f"C07 {case['fmt']} {case['variant']} {tf.hexs(case['text'])}"]
         if impl.get("status") == "ok" and case["fmt"] != "kitti":
@@ -439,11 +497,31 @@ def parse_rows(out, width):
 
 
 # ------------------------------------------------------------------ judging
+def judge_history(ctx, case, impl, outs):
+    for i, (st, im, m) in enumerate(zip(case["steps"], impl["steps"], outs)):
+        sub = {"kind": "read", "fmt": case["fmt"], "variant": "p", "text": (tf.BOM if st["bom"] else "") + st["text"],
+               "label": "ok"}
+        im = dict(im)
+        im["poses"] = []          # the quaternion convention is judged by the single-read stream
+        before = (len(ctx.failures), len(ctx.mismatches))
+        judge_read(ctx, sub, im, [m], report=case)
+        if (len(ctx.failures), len(ctx.mismatches)) != before:
+            for lst in (ctx.failures[before[0]:], ctx.mismatches[before[1]:]):
+                for _, f in lst:
+                    key = "detail" if "detail" in f else "what"
+                    f[key] = (f"history round {i + 1} of {len(case['steps'])} ({'BOM' if st['bom'] else 'no BOM'}, path spelled {st['spell']}/"
+                              f"{st['ptype']}; previous round {'BOM' if i and case['steps'][i - 1]['bom'] else 'no BOM' if i else '-'}): " + str(f[key]))
+    ctx.count("branch", "history:" + case["fmt"])
+
+
 def judge(ctx, case, impl, outs):
+    if case["kind"] == "history":
+        return judge_history(ctx, case, impl, outs)
     {"read": judge_read, "written": judge_written, "tfjson": judge_tfjson, "tfmat": judge_tfmat}[case["kind"]](ctx, case, impl, outs)
 
 
-def judge_read(ctx, case, impl, outs):
+def judge_read(ctx, case, impl, outs, report=None):
+    rc = report if report is not None else case
     fmt, variant, text = case["fmt"], case["variant"], case["text"]
     width = 12 if fmt == "kitti" else 8
     ref = tf.ref_read(fmt, text, variant == "p")
@@ -458,41 +536,43 @@ def judge_read(ctx, case, impl, outs):
     if m in ("E_FORMAT", "E_RANGE"):
         ctx.count("branch", "read:" + m)
         if st != "FIE":
-            ctx.mismatch(case, f"model {m}, evo {st}", st, m)
+            ctx.mismatch(rc, f"model {m}, evo {st}", st, m)
     else:
         rows = parse_rows(m, width)
         ctx.count("branch", "read:accepted")
         if st != "ok":
-            ctx.mismatch(case, f"model accepts {len(rows)} rows, evo {st}", st, "ok")
+            ctx.mismatch(rc, f"model accepts {len(rows)} rows, evo {st}", st, "ok")
         else:
-            got = [[frac(tf.from_bits(b)) for b in row] for row in impl["rows"]]
+            got = [[safe_frac(tf.from_bits(b)) for b in row] for row in impl["rows"]]
             if got != rows:
-                ctx.mismatch(case, "parsed values differ from rne(parseDec field) in some slot",
+                ctx.mismatch(rc, "parsed values differ from rne(parseDec field) in some slot",
                              first_diff(got, rows), None)
     # ---- oracle: the reference reader (skipped for a BOM character in a text handle)
     if not (variant == "h" and text.startswith(tf.BOM)):
         if ref == "reject":
             if st == "ok":
-                ctx.fail(case, "malformed-file-accepted", f"defect {label}: evo loaded {len(impl['rows'])} rows", {"defect": label})
+                ctx.fail(rc, "malformed-file-accepted", f"defect {label}: evo loaded {len(impl['rows'])} rows", {"defect": label})
             elif st != "FIE":
-                ctx.fail(case, "malformed-file-wrong-exception", f"defect {label}: {st} {impl.get('msg')}", {"defect": label})
+                ctx.fail(rc, "malformed-file-wrong-exception", f"defect {label}: {st} {impl.get('msg')}", {"defect": label})
         else:
             if st != "ok":
-                ctx.fail(case, "well-formed-file-rejected", f"{st} {impl.get('msg', '')}")
+                ctx.fail(rc, "well-formed-file-rejected", f"{st} {impl.get('msg', '')}")
             else:
                 want = [[tf.bits(v) for v in row] for row in ref]
                 if len(want) != len(impl["rows"]):
-                    ctx.fail(case, "row-count", f"file has {len(want)} data rows, evo loaded {len(impl['rows'])}")
+                    ctx.fail(rc, "row-count", f"file has {len(want)} data rows, evo loaded {len(impl['rows'])}")
                 elif want != impl["rows"]:
-                    ctx.fail(case, "values-in-slots", "first difference (row, slot, evo, file): %s" % (first_diff(impl["rows"], want),))
+                    ctx.fail(rc, "values-in-slots", "first difference (row, slot, evo, file): %s" % (first_diff(impl["rows"], want),))
                 if fmt == "kitti" and not impl["bottom_ok"]:
-                    ctx.fail(case, "kitti-bottom-row", "bottom row is not 0 0 0 1")
+                    ctx.fail(rc, "kitti-bottom-row", "bottom row is not 0 0 0 1")
                 if fmt != "kitti" and len(set(impl["lens"])) != 1:
-                    ctx.fail(case, "row-count", f"lengths {impl['lens']}")
+                    ctx.fail(rc, "row-count", f"lengths {impl['lens']}")
     # ---- quaternion convention: poses_se3 of the loaded object
     if st == "ok" and fmt != "kitti":
         for k, pose in enumerate(impl["poses"]):
             w, x, y, z = (tf.from_bits(b) for b in impl["rows"][k][4:8])
+            if not all(math.isfinite(v) for v in (w, x, y, z)) or not all(math.isfinite(v) for v in pose):
+                continue
             n2 = sum(frac(v) ** 2 for v in (w, x, y, z))
             if not (1e-12 < n2 < 1e12) or k + 1 >= len(outs):
                 continue
@@ -503,14 +583,19 @@ def judge_read(ctx, case, impl, outs):
             for i in range(3):
                 for j in range(3):
                     if abs(frac(pose[4 * i + j]) - Rm[i][j]) > Fraction(1, 10 ** 12):
-                        ctx.mismatch(case, f"poses_se3[{k}][{i},{j}] differs from Text.quatToRot", pose[4 * i + j], float(Rm[i][j]))
+                        ctx.mismatch(rc, f"poses_se3[{k}][{i},{j}] differs from Text.quatToRot", pose[4 * i + j], float(Rm[i][j]))
                     if abs(frac(pose[4 * i + j]) - Ro[i][j]) > Fraction(1, 10 ** 12):
-                        ctx.fail(case, "quaternion-convention", f"pose {k} entry ({i},{j}): {pose[4*i+j]} vs {float(Ro[i][j])} for wxyz={w,x,y,z}")
+                        ctx.fail(rc, "quaternion-convention", f"pose {k} entry ({i},{j}): {pose[4*i+j]} vs {float(Ro[i][j])} for wxyz={w,x,y,z}")
                 if tf.bits(pose[4 * i + 3]) != tf.bits(tx[i]) and math.isfinite(tx[i]):
-                    ctx.fail(case, "translation-slot", f"pose {k} translation {i}")
+                    ctx.fail(rc, "translation-slot", f"pose {k} translation {i}")
             ctx.count("branch", "quat-checked")
     nontrivial = label != "ok" or (ref != "reject" and len(ref) > 1)
-    ctx.record(case, nontrivial)
+    ctx.record(rc, nontrivial)
+
+
+def safe_frac(v):
+    """exact value of a finite double; a marker (never equal to a model value) for inf / nan"""
+    return frac(v) if math.isfinite(v) else "non-finite:" + tf.bits(v)
 
 
 def first_diff(a, b):
@@ -683,10 +768,21 @@ def evaluate(ctx, cases):
         lines += ls
     outs = core.run_driver(lines, prop="C07")
     for c, im, (a, b) in zip(cases, impls, spans):
-        judge(ctx, c, im, outs[a:b])
+        try:
+            judge(ctx, c, im, outs[a:b])
+        except Exception as e:  # noqa  (never a tool error: what evo returned could not even be judged)
+            ctx.mismatch(c, f"the harness could not judge what evo returned: {type(e).__name__}: {str(e)[:160]}", str(im)[:300], None)
 
 
 def shrink(case):
+    if case["kind"] == "history":
+        n = len(case["steps"])
+        if n > 2:
+            for i in range(n):
+                c = dict(case)
+                c["steps"] = case["steps"][:i] + case["steps"][i + 1:]
+                yield c
+        return
     if case["kind"] == "read":
         lines = case["text"].split("\n")
         if len(lines) > 1:
